@@ -88,13 +88,20 @@ class Env:
         if c is None:
             return
         c.active_guards -= 1
-        if c.active_guards == 0:
-            self.flush(it, c)
+        c.active.discard(g.id)
+        self.flush(it, c, g.id)
 
-    def flush(self, it: Interp, c: CollectorV):
-        """run the reclaimers of everything retired so far (no guard is active any more)"""
-        while c.retired:
-            ptr, reclaim = c.retired.pop(0)
+    def flush(self, it: Interp, c: CollectorV, gone: Optional[int] = None):
+        """an object is reclaimed once every guard that was active when it was retired has been dropped"""
+        ready = []
+        for rec in c.retired:
+            if gone is not None:
+                rec[2].discard(gone)
+            if not rec[2]:
+                ready.append(rec)
+        for rec in ready:
+            c.retired.remove(rec)
+        for ptr, reclaim, _ in ready:
             self.reclaim(it, ptr, reclaim)
 
     def reclaim(self, it: Interp, ptr: Ptr, reclaim):
@@ -124,7 +131,7 @@ class Env:
         if guard.collector is None:
             self.reclaim(it, ptr, reclaim)       # unprotected guard: reclaimed immediately
         else:
-            guard.collector.retired.append((ptr, reclaim))
+            guard.collector.retired.append([ptr, reclaim, set(guard.collector.active)])
 
     # ---- keys ---------------------------------------------------------------------------
     def key_eq(self, it: Interp, a, b) -> Sc:
@@ -195,6 +202,8 @@ class Env:
                 p = args[0]
                 return Ptr(p.base, p.path + (('field', 1),))
             if code == 2:
+                if it.sched is not None and it.sched.yield_loads:
+                    self.sp(it, 'load (protect) @ %s' % (t.span,))
                 cell = it.load_ptr(args[1])
                 return cell.fields[0]
             if code == 3 and isinstance(args[0], Ptr):
@@ -202,6 +211,8 @@ class Env:
             if code == 4:
                 return NULL
             if code == 5:
+                if it.sched is not None and (it.sched.yield_loads or not name.endswith('load')):
+                    self.sp(it, '%s @ %s' % (name.rsplit('::', 1)[-1], t.span))
                 cell = it.load_ptr(args[0])
                 if isinstance(cell, Agg) and len(cell.fields) == 1:
                     if name.endswith('load'):
@@ -387,6 +398,9 @@ class Env:
         if last == 'size_of':
             return Sc(8, 'usize')
         if last == 'spin_loop' or last == 'yield_now':
+            if it.sched is not None:
+                self.sp(it, 'yield (%s) @ %s' % (last, t.span), spin=True)
+                return UNIT
             if last == 'yield_now':
                 raise Violation('would-block', 'thread::yield_now reached on a sequential path (waiting for another thread) @ %s' % t.span)
             return UNIT
@@ -495,10 +509,12 @@ class Env:
             m = it.load_ptr(p)
             if not isinstance(m, MutexV):
                 raise Unsupported('lock of %r' % (m,))
-            if m.locked:
-                raise Violation('self-deadlock', 'bin lock acquired while already held on a sequential path @ %s' % t.span)
             if it.held_locks:
                 raise Violation('two-locks', 'a second bin lock is acquired while one is held @ %s' % t.span)
+            if it.sched is not None:
+                self.sp(it, 'lock bin @ %s' % (t.span,), blocking=('lock', lambda m=m: m))
+            if m.locked:
+                raise Violation('self-deadlock', 'bin lock acquired while already held on a sequential path @ %s' % t.span)
             m.locked = True
             it.held_locks.append(p)
             return MutexGuardV(p)
@@ -510,7 +526,9 @@ class Env:
         if name.endswith('Collector::enter'):
             c = deref(args[0])
             c.active_guards += 1
-            return GuardV(c)
+            g = GuardV(c)
+            c.active.add(g.id)
+            return g
         if name.endswith('Guard::unprotected'):
             return GuardV(None)
         if name.endswith('Guard::collector'):
@@ -535,8 +553,8 @@ class Env:
             return UNIT
         if name.endswith('Guard::refresh'):
             g = deref(args[0])
-            if g.collector is not None and g.collector.active_guards == 1:
-                self.flush(it, g.collector)
+            if g.collector is not None:
+                self.flush(it, g.collector, g.id)       # leaves and re-enters: everything retired so far no longer waits for this guard
             return UNIT
         if name.endswith('Link::cast'):
             return args[0]
@@ -549,6 +567,21 @@ class Env:
         # ---------------- threads / cpu ----------------
         if name.endswith('num_cpus') or name == 'num_cpus':
             return Sc(self.ncpu, 'usize')
+        if it.sched is not None and (name.endswith('thread::current') or name == 'current'):
+            return Agg('Thread', None, [Sc(it.lt.tid, 'usize')])
+        if it.sched is not None and (name.endswith('thread::park') or name == 'park'):
+            lt = it.lt
+            self.sp(it, 'park @ %s' % (t.span,), blocking=('park',))
+            lt.token = False
+            return UNIT
+        if it.sched is not None and name.endswith('Thread::unpark'):
+            h = deref(args[0])
+            tid = int(h.fields[0].v)
+            self.sp(it, 'unpark thread %d @ %s' % (tid, t.span))
+            for o in it.sched.threads:
+                if o.tid == tid:
+                    o.token = True
+            return UNIT
         if name.endswith('thread::current') or name.endswith('thread::park') or name == 'park' or name == 'current' or name.endswith('Thread::unpark'):
             if last == 'unpark':
                 return UNIT
@@ -557,6 +590,11 @@ class Env:
         if name.endswith('convert::identity'):
             return args[0]
         return NotImplemented
+
+    def sp(self, it: Interp, what: str, blocking=None, spin: bool = False):
+        s = it.sched
+        if s is not None:
+            s.point(it.lt, what, blocking, spin)
 
     def clone_atomic(self, it: Interp, v):
         # vec![Atomic::null(); n] clones through <reclaim::Atomic as Clone>::clone - the element is null, a structural copy is exact
@@ -570,6 +608,8 @@ class Env:
         if last == 'into_inner':
             return args[0].fields[0]
         p = args[0]
+        if it.sched is not None and (it.sched.yield_loads or last != 'load'):
+            self.sp(it, '%s @ %s' % (last, t.span))
         cell = it.load_ptr(p)
         if not isinstance(cell, Agg) or len(cell.fields) != 1:
             raise Unsupported('atomic op on %r' % (cell,))
